@@ -20,7 +20,6 @@ COMMON_ASSUMPTIONS = [
 def run(prop: str, level: str, *, files: list[str] | None = None, targets: list[str] | None = None,
         bounded: bool = True, extra=None, notes: str = "") -> None:
     def body(ctx: Ctx) -> None:
-        logging.disable(logging.WARNING)
         warnings.filterwarnings("ignore")
         os.environ.setdefault("TQDM_DISABLE", "1")
         from vlib.core import CheckerError
